@@ -32,11 +32,11 @@ type Interval struct {
 func (i Interval) Add(t time.Time) time.Time {
 	switch i.Scale {
 	case IntervalSecond:
-		return t.Add(time.Second * time.Duration(i.Value))
+		return addSeconds(t, i.Value)
 	case IntervalMinute:
-		return t.Add(time.Minute * time.Duration(i.Value))
+		return addSeconds(t, i.Value*60)
 	case IntervalHour:
-		return t.Add(time.Hour * time.Duration(i.Value))
+		return addSeconds(t, i.Value*60*60)
 	case IntervalDay:
 		return t.AddDate(0, 0, int(i.Value))
 	case IntervalWeek:
@@ -50,6 +50,14 @@ func (i Interval) Add(t time.Time) time.Time {
 	default:
 		panic(fmt.Sprintf("unknown interval scale %s", i.Scale))
 	}
+}
+
+// addSeconds moves t by n seconds.
+//
+// Not t.Add: time.Duration holds about 292 years, less than the span of
+// DateTime64, so longer intervals would silently wrap.
+func addSeconds(t time.Time, n int64) time.Time {
+	return time.Unix(t.Unix()+n, int64(t.Nanosecond())).In(t.Location())
 }
 
 func (i Interval) String() string {
